@@ -52,7 +52,7 @@ pub enum OwnAct {
 }
 
 pub fn principals() -> Vec<String> {
-    vec![p20("adm"), p20("B"), p20("C"), p20("D")]
+    vec![p20("adm"), p32("B-contract"), p20("C"), p20("D")]
 }
 
 thread_local! {
